@@ -11,52 +11,69 @@ From Ford Require Import Base.Str Sem.UseAssoc Sem.UseAssocProofs.
 
 (* Full statement: for every legal program (wf_graph: distinct module names, unambiguous
    identifiers, ...) on an acyclic USE graph, processed in any topological order, the tables of
-   every module are the Spec's.  Graphs, chains, ONLY lists are unbounded.  It is FALSE of the
-   code (five witnesses below). *)
+   every module are the Spec's.  Graphs, chains, ONLY lists, rename lists are unbounded; no
+   region is excluded (the five defects that made this false of the code are repaired; their
+   witnesses are the fixed examples below). *)
 Definition C06_statement : Prop :=
   forall g o, wf_graph g = true -> topo_b g o = true ->
   forall c M, In M g -> tables_ok c g (correlate_all c g o) M.
 
-(* Partial: the same, for programs outside the four decidable regions (rename together with a
-   USE without ONLY; PRIVATE statement for an imported name in a default-public module; empty
-   ONLY list; ONLY list naming an entity twice). *)
-Theorem C06_partial : forall g o,
-  wf_graph g = true -> no_region g = true -> topo_b g o = true ->
-  forall c M, In M g -> tables_ok c g (correlate_all c g o) M.
-Proof. exact partial_correct. Qed.
-Print Assumptions C06_partial.
+Theorem C06_full : C06_statement.
+Proof. exact full_correct. Qed.
+Print Assumptions C06_full.
 
-(* Witnesses: legal program, topological order, exactly the named region, a module whose tables
-   are not the Spec's.  [refuted_in g (r1, r2, r3, r4)] lists the four region predicates. *)
-Theorem C06_refuted_rename : refuted_in w_rename (true, false, false, false).
-Proof. exact refuted_rename. Qed.
-Print Assumptions C06_refuted_rename.
+(* The former witnesses (legal program, FORD's processing order) with the entries the repaired
+   code gives the importing module; [tab_of g o i c] = the (pub, all) dictionaries of class c of
+   the i-th module of g after processing in order o. *)
+(* use ma, bar => foo: foo is accessible as bar and only as bar, and bar is re-exported *)
+Theorem C06_fixed_rename :
+  wf_graph w_rename = true /\ toposort w_rename = Some [s "ma"; s "mb"] /\
+  assoc_get (s "bar") (snd (tab_of w_rename [s "ma"; s "mb"] 1 CVar)) = Some (s "ma", s "foo") /\
+  assoc_get (s "foo") (snd (tab_of w_rename [s "ma"; s "mb"] 1 CVar)) = None /\
+  assoc_get (s "bar") (fst (tab_of w_rename [s "ma"; s "mb"] 1 CVar)) = Some (s "ma", s "foo").
+Proof. exact fixed_rename. Qed.
+Print Assumptions C06_fixed_rename.
 
-Theorem C06_refuted_rename_across_statements : refuted_in w_across (true, false, false, false).
-Proof. exact refuted_across. Qed.
-Print Assumptions C06_refuted_rename_across_statements.
+(* use ma / use ma, only: bar => foo: the rename in the second statement hides foo in the first *)
+Theorem C06_fixed_rename_across_statements :
+  wf_graph w_across = true /\ toposort w_across = Some [s "ma"; s "mb"] /\
+  assoc_get (s "bar") (snd (tab_of w_across [s "ma"; s "mb"] 1 CVar)) = Some (s "ma", s "foo") /\
+  assoc_get (s "foo") (snd (tab_of w_across [s "ma"; s "mb"] 1 CVar)) = None /\
+  assoc_get (s "wa1") (snd (tab_of w_across [s "ma"; s "mb"] 1 CVar)) = Some (s "ma", s "wa1").
+Proof. exact fixed_across. Qed.
+Print Assumptions C06_fixed_rename_across_statements.
 
-Theorem C06_refuted_private_reexport : refuted_in w_private (false, true, false, false).
-Proof. exact refuted_private. Qed.
-Print Assumptions C06_refuted_private_reexport.
+(* module mb: use ma; private :: foo   module mc: use mb — mb sees foo, mc does not *)
+Theorem C06_fixed_private_reexport :
+  wf_graph w_private = true /\ toposort w_private = Some [s "ma"; s "mb"; s "mc"] /\
+  assoc_get (s "foo") (snd (tab_of w_private [s "ma"; s "mb"; s "mc"] 1 CVar)) = Some (s "ma", s "foo") /\
+  assoc_get (s "foo") (fst (tab_of w_private [s "ma"; s "mb"; s "mc"] 1 CVar)) = None /\
+  assoc_get (s "foo") (snd (tab_of w_private [s "ma"; s "mb"; s "mc"] 2 CVar)) = None /\
+  assoc_get (s "wa1") (snd (tab_of w_private [s "ma"; s "mb"; s "mc"] 2 CVar)) = Some (s "ma", s "wa1").
+Proof. exact fixed_private. Qed.
+Print Assumptions C06_fixed_private_reexport.
 
-Theorem C06_refuted_only_empty : refuted_in w_only_empty (false, false, true, false).
-Proof. exact refuted_only_empty. Qed.
-Print Assumptions C06_refuted_only_empty.
+(* use ma, only: — nothing is imported *)
+Theorem C06_fixed_only_empty :
+  wf_graph w_only_empty = true /\ toposort w_only_empty = Some [s "ma"; s "mb"] /\
+  snd (tab_of w_only_empty [s "ma"; s "mb"] 1 CType) = [] /\
+  snd (tab_of w_only_empty [s "ma"; s "mb"] 1 CVar) = [] /\
+  snd (tab_of w_only_empty [s "ma"; s "mb"] 1 CProc) = [] /\
+  snd (tab_of w_only_empty [s "ma"; s "mb"] 1 CAbs) = [].
+Proof. exact fixed_only_empty. Qed.
+Print Assumptions C06_fixed_only_empty.
 
-Theorem C06_refuted_only_dup : refuted_in w_only_dup (false, false, false, true).
-Proof. exact refuted_only_dup. Qed.
-Print Assumptions C06_refuted_only_dup.
-
-Theorem C06_statement_refuted : ~ C06_statement.
-Proof.
-  intros H. destruct refuted_rename as (o & c & M & Hwf & Ht & HM & _ & N). exact (N (H _ o Hwf Ht c M HM)).
-Qed.
-Print Assumptions C06_statement_refuted.
+(* use ma, only: foo, bar => foo — both local names denote ma's foo *)
+Theorem C06_fixed_only_dup :
+  wf_graph w_only_dup = true /\ toposort w_only_dup = Some [s "ma"; s "mb"] /\
+  assoc_get (s "foo") (snd (tab_of w_only_dup [s "ma"; s "mb"] 1 CVar)) = Some (s "ma", s "foo") /\
+  assoc_get (s "bar") (snd (tab_of w_only_dup [s "ma"; s "mb"] 1 CVar)) = Some (s "ma", s "foo").
+Proof. exact fixed_only_dup. Qed.
+Print Assumptions C06_fixed_only_dup.
 
 (* "regardless of the order in which source files are read": any two topological orders of the
-   modules leave every module with literally the same dictionaries (no region hypothesis; the
-   graph is arbitrary apart from distinct names and no module using itself). *)
+   modules leave every module with literally the same dictionaries (the graph is arbitrary apart
+   from distinct names and no module using itself). *)
 Theorem C06_order_independent : forall c g o1 o2,
   topo_b g o1 = true -> topo_b g o2 = true -> no_self_use g = true ->
   forall M, In M g -> st_tabs (correlate_all c g o1) M = st_tabs (correlate_all c g o2) M.
@@ -105,40 +122,34 @@ Definition C06_nested_statement : Prop :=
   forall c M S, In M g -> In S (m_nested M) ->
   denotes (nested_imports_model c g o M S) (nested_imports c g M S).
 
-(* Partial: outside the regions 1-4 (the recorded defects of USE-statement processing, which are
-   the same wherever the statement stands); every nested scope, at any nesting depth, any kind
-   (also the bodies of abstract and generic interface blocks, since the repair of
-   find_used_modules / get_deps), for any topological order. *)
-Theorem C06_nested_partial : forall c g o,
-  wf_graph g = true -> no_region g = true -> topo_b g o = true ->
+(* Full: every legal program, every nested scope at any nesting depth and of any kind (also the
+   bodies of abstract and generic interface blocks), any topological order. *)
+Theorem C06_nested_full : forall c g o,
+  wf_graph g = true -> topo_b g o = true ->
   forall M S, In M g -> In S (m_nested M) ->
   denotes (nested_imports_model c g o M S) (nested_imports c g M S).
 Proof. exact nested_correct. Qed.
-Print Assumptions C06_nested_partial.
+Print Assumptions C06_nested_full.
 
-(* Witness that the region hypothesis is needed here too: `use za, tb => ta` in a module procedure. *)
-Theorem C06_nested_refuted_rename : nested_refuted_in w_nested_rename.
-Proof. exact refuted_nested_rename. Qed.
-Print Assumptions C06_nested_refuted_rename.
+(* The former nested witness `use za, tb => ta` in a module procedure: exactly tb is imported. *)
+Theorem C06_nested_fixed_rename :
+  wf_graph w_nested_rename = true /\ toposort w_nested_rename = Some [s "za"; s "mm"] /\
+  nested_imports_model CType w_nested_rename [s "za"; s "mm"] (nth 0 w_nested_rename w_za)
+     (mkS ["p"%string] [NRoutine] [] [mkU "za" None [(s "tb", s "ta")]]) = [(s "tb", (s "za", s "ta"))].
+Proof. exact fixed_nested_rename. Qed.
+Print Assumptions C06_nested_fixed_rename.
 
-Theorem C06_nested_statement_refuted : ~ C06_nested_statement.
-Proof.
-  intros H. destruct refuted_nested_rename as (o & c & M & S & Hwf & Ht & _ & HM & HS & _ & N).
-  exact (N (H _ o Hwf Ht c M S HM HS)).
-Qed.
-Print Assumptions C06_nested_statement_refuted.
-
-(* The witnesses of the two repaired defects (USE in an abstract interface body ignored; USE in a
-   body inside a generic interface block not a dependency) now get the used module's entities. *)
+(* The witnesses of the two defects repaired earlier (USE in an abstract interface body ignored;
+   USE in a body inside a generic interface block not a dependency) get the used module's entities. *)
 Theorem C06_nested_fixed_absbody :
-  wf_graph w_absbody = true /\ no_region w_absbody = true /\ toposort w_absbody = Some [s "za"; s "mm"] /\
+  wf_graph w_absbody = true /\ toposort w_absbody = Some [s "za"; s "mm"] /\
   assoc_get (s "ta") (nested_imports_model CType w_absbody [s "za"; s "mm"] (nth 0 w_absbody w_za)
                         (mkS ["cb"%string] [NAbsBody] [] [mkU "za" None []])) = Some (s "za", s "ta").
 Proof. exact fixed_absbody. Qed.
 Print Assumptions C06_nested_fixed_absbody.
 
 Theorem C06_nested_fixed_genbody :
-  wf_graph w_genbody = true /\ no_region w_genbody = true /\
+  wf_graph w_genbody = true /\
   toposort w_genbody = Some [s "za"; s "zf"; s "mm"] /\
   assoc_get (s "ta") (nested_imports_model CType w_genbody [s "za"; s "zf"; s "mm"] (nth 0 w_genbody w_za)
                         (mkS ["ext"%string] [NGenBody] [] [mkU "zf" None []])) = Some (s "za", s "ta").
@@ -148,18 +159,18 @@ Print Assumptions C06_nested_fixed_genbody.
 (* non-vacuity for the nested theorem: module "me" whose only USE statements sit in a module
    procedure, in an internal procedure, in an interface body and in an abstract interface body of
    that procedure; its dependencies exist only through get_deps' recursion *)
-Theorem C06_nested_example : 
-  wf_graph ex_gn = true /\ no_region ex_gn = true /\ topo_b ex_gn ex_on = true /\
+Theorem C06_nested_example :
+  wf_graph ex_gn = true /\ topo_b ex_gn ex_on = true /\
   toposort ex_gn = Some ex_on /\
   deps ex_gn (nth 4 ex_gn w_ma) = [s "md"; s "mc"; s "mb"; s "ma"].
-Proof. destruct ex_nested_hypotheses as (H1 & H2 & H3 & H4 & H5 & _). repeat split; assumption. Qed.
+Proof. exact ex_nested_example. Qed.
 Print Assumptions C06_nested_example.
 
 (* non-vacuity: a diamond of re-export with ONLY, renames, a default-private module with an
    explicit PUBLIC and an unknown (intrinsic) module satisfies every hypothesis above, has two
    different topological orders, and its tables are not trivial *)
 Theorem C06_example_hypotheses :
-  wf_graph ex_g = true /\ no_region ex_g = true /\ no_self_use ex_g = true /\
+  wf_graph ex_g = true /\ no_self_use ex_g = true /\
   topo_b ex_g ex_o1 = true /\ topo_b ex_g ex_o2 = true /\ ex_o1 <> ex_o2 /\
   toposort ex_g = Some ex_o1 /\ NoDup (names ex_g).
 Proof. exact ex_hypotheses. Qed.
